@@ -733,7 +733,8 @@ class InHeadPhase(Phase):
 
         attributes = token["data"]
         if self.parser.tokenizer.stream.charEncoding[1] == "tentative":
-            if "charset" in attributes:
+            if ("charset" in attributes and
+                    _inputstream.lookupEncoding(attributes["charset"]) is not None):
                 self.parser.tokenizer.stream.changeEncoding(attributes["charset"])
             elif ("content" in attributes and
                   "http-equiv" in attributes and
